@@ -1,3 +1,327 @@
-From Iodine Require Import Hostname.
-Theorem C08_placeholder : True. Proof. exact I. Qed.
-Print Assumptions C08_placeholder.
+(* Properties_C08.v -- final statements for property C08 (upstream query names are legal, within
+   the limit, and decode to what was sent).  Models: Hostname.v (build_hostname, inline_dotify,
+   inline_undotify, unpack_data, client builders), DnsName.v (putname, readname), DnsMsg.v
+   (dns_encode / dns_decode of a query), Domain.v (check_topdomain, query_datalen), Codec.v.
+   Lemmas: HostnameProofs.v, DnsNameProofs.v; C07 (roundtrip) and C17 (query_datalen) are used.
+
+   Quantifier: every hostname-length limit L <= 255 (the property text says 100..255; the lower
+   bound is not needed), every client-accepted tunnel domain d with |d| + 24 <= L, each of the four
+   codecs, every non-empty payload of bytes, every header of 5 (chunk / probe) or 1 (packet)
+   characters other than NUL and '.', both buffer sizes the client passes (4091, 4095). *)
+From Coq Require Import List NArith ZArith Arith Lia.
+From Iodine Require Import Base Codec CodecProofs Hostname DnsName DnsNameProofs DnsMsg Domain
+  DomainProofs HostnameProofs Properties_C07.
+Import ListNotations.
+Local Open Scope N_scope.
+
+Lemma the_codec_ok c : the_codec c -> wfb c = true /\ dotfreeb c = true.
+Proof.
+  intros [->|[->|[->| ->]]]; split;
+    first [exact wfb_b32|exact wfb_b64|exact wfb_b64u|exact wfb_b128
+          |exact dotfree_b32|exact dotfree_b64|exact dotfree_b64u|exact dotfree_b128].
+Qed.
+
+(* the quantifier of the property *)
+Definition C08_range (c : codec) (d data : list N) (L buflen : nat) (hdr : list N) : Prop :=
+  the_codec c /\ check_topdomain d false = true /\ (100 <= L <= 255)%nat /\ (length d + 24 <= L)%nat /\
+  bytes_ok data /\ (1 <= length data)%nat /\ (buflen = 4091%nat \/ buflen = 4095%nat) /\
+  hdr_ok hdr /\ (length hdr = 5%nat \/ length hdr = 1%nat).
+
+Lemma C08_range_upstream c d sd data L buflen hdr name n :
+  C08_range c d data L buflen hdr -> check_topdomain sd true = true -> serves sd d ->
+  build_hostname c buflen data d L = Some (name, n) ->
+  upstream_ok c (length hdr) d sd data L (hdr ++ name) n.
+Proof.
+  intros [Hc [Hd [[_ HL] [HdL [Hdata [Hlen [Hbuf [Hh Hhl]]]]]]]] Hsd Hserves Hb.
+  destruct (the_codec_ok c Hc) as [Hwf Hdf].
+  assert (Hne : data <> []) by (destruct data; [simpl in Hlen; lia|discriminate]).
+  assert (HLb : (L <= buflen)%nat).
+  { destruct Hbuf as [->| ->]; [apply le_255_4091, HL|apply le_255_4095, HL]. }
+  assert (Hh5 : (length hdr <= 5)%nat) by (destruct Hhl as [->| ->]; repeat constructor).
+  exact (build_upstream_ok c d sd data L buflen hdr name n Hwf Hdf Hd HdL HL HLb Hdata Hne Hh Hh5 Hsd Hserves Hb).
+Qed.
+
+(* ---------------------------------------------------------------------------------------- *)
+
+(* inline_dotify: the three period constants of encoding.c agree (57); the in-place backward copy
+   loop equals the forward shape "a dot after every full group of 57 characters" (a trailing dot
+   when the length is a multiple of 57); it refuses exactly when the result would not fit; for
+   dot-free text undotify inverts it and the dots sit exactly at the positions = 57 (mod 58) *)
+Theorem C08_dotify :
+  (period_build = 57%nat /\ period_dots = 57%nat /\ period_pos = 57%nat) /\
+  (forall s, dotify_back (List.rev s) (length s) (length s / 57) [] = dotify_spec (length s) 57 s) /\
+  (forall s buflen, inline_dotify s buflen =
+     if (buflen <? length s + length s / 57)%nat then None else Some (dotify_spec (length s) 57 s)) /\
+  (forall s, ~ In DOT s ->
+     let X := dotify_spec (length s) 57 s in
+     inline_undotify X (length X) = s /\
+     length X = (length s + length s / 57)%nat /\
+     (forall i, (i < length X)%nat -> (nth i X 0 = DOT <-> (i mod 58 = 57)%nat))).
+Proof.
+  split; [repeat split; reflexivity|]. split.
+  { intros s. rewrite (dotify_back_spec (List.rev s) (length s) []) by apply rev_length.
+    rewrite rev_involutive, app_nil_r. reflexivity. }
+  split.
+  { intros s buflen. destruct (buflen <? length s + length s / 57)%nat eqn:E.
+    - apply inline_dotify_none. apply Nat.ltb_lt, E.
+    - apply inline_dotify_spec. apply Nat.ltb_ge, E. }
+  intros s Hs X. split; [|split].
+  - unfold inline_undotify. rewrite firstn_all. fold (undot X). unfold X.
+    rewrite dotify_spec_undot. apply undot_nodot, Hs.
+  - apply dotify_spec_length, le_n.
+  - intros i Hi. apply dotify_spec_dot_iff; assumption.
+Qed.
+Print Assumptions C08_dotify.
+
+(* the builder never fails in the stated range *)
+Theorem C08_builds : forall c d data L buflen hdr,
+  C08_range c d data L buflen hdr ->
+  exists name n, build_hostname c buflen data d L = Some (name, n).
+Proof.
+  intros c d data L buflen hdr [Hc [Hd [[_ HL] [HdL [Hdata [Hlen [Hbuf _]]]]]]].
+  destruct (the_codec_ok c Hc) as [Hwf Hdf].
+  assert (Hne : data <> []) by (destruct data; [simpl in Hlen; lia|discriminate]).
+  eexists. eexists. apply build_hostname_eq; try assumption.
+  destruct Hbuf as [->| ->]; [apply le_255_4091, HL|apply le_255_4095, HL].
+Qed.
+Print Assumptions C08_builds.
+
+(* the query name (header + build_hostname's output) has at most L - 2 <= L characters, ends with
+   "." ++ domain, splits into labels of 1..63 bytes without NUL or '.', the first label being the
+   header plus at most 57 characters (<= 62); putname accepts it and the wire form has
+   length + 2 <= 255 bytes *)
+Theorem C08_length : forall c d data L buflen hdr name n,
+  C08_range c d data L buflen hdr ->
+  build_hostname c buflen data d L = Some (name, n) ->
+  let full := hdr ++ name in
+  (length full <= L - 2)%nat /\ (length full <= L)%nat /\
+  (exists front, full = front ++ DOT :: d) /\
+  (exists ls, full = join_dot ls /\
+     Forall (fun l => (1 <= length l <= 63)%nat /\ ~ In DOT l /\ ~ In 0 l) ls /\
+     (length (hd [] ls) <= length hdr + 57)%nat /\ (length (hd [] ls) <= 62)%nat /\
+     putname (length full) full = Some (wire_of ls) /\
+     length (wire_of ls) = (length full + 2)%nat /\ (length (wire_of ls) <= 255)%nat).
+Proof.
+  intros c d data L buflen hdr name n HR Hb full.
+  pose proof HR as [_ [Hd [_ [_ [_ [_ [_ [_ Hhl]]]]]]]].
+  assert (Hsd : check_topdomain d true = true).
+  { apply check_topdomain_iff. apply check_topdomain_iff in Hd.
+    destruct Hd as [H1 [[H2|[H2 _]] H3]]; [|discriminate]. split; [exact H1|]. split; [left; exact H2|exact H3]. }
+  destruct (C08_range_upstream c d d data L buflen hdr name n HR Hsd (serves_refl d) Hb)
+    as [U1 [U2 [[ls [E [[Q1 [Q2 [Q3 Q4]]] [F [P [W1 W2]]]]]] _]]].
+  fold full in U1, U2, E, P, W1. split; [exact U1|]. split; [lia|]. split; [exact U2|].
+  exists ls. split; [exact E|]. split.
+  - rewrite Forall_forall in *. intros l Hl. specialize (Q1 l Hl). unfold len_ok in Q1.
+    split; [exact Q1|]. split; [exact (Q2 l Hl)|exact (Q3 l Hl)].
+  - split; [exact F|]. split; [destruct Hhl as [Hx|Hx]; rewrite Hx in F; lia|].
+    split; [exact P|]. split; [exact W1|exact W2].
+Qed.
+Print Assumptions C08_length.
+
+(* the builder reports a non-empty prefix: at least one and at most all payload bytes; the
+   encoder capacity is at least 16 characters because the domain leaves at least 24 *)
+Theorem C08_prefix : forall c d data L buflen hdr name n,
+  C08_range c d data L buflen hdr ->
+  build_hostname c buflen data d L = Some (name, n) ->
+  (1 <= n <= length data)%nat /\ (16 <= bh_space L (length d))%nat.
+Proof.
+  intros c d data L buflen hdr name n HR Hb.
+  pose proof HR as [_ [Hd [_ [HdL _]]]].
+  assert (Hsd : check_topdomain d true = true).
+  { apply check_topdomain_iff. apply check_topdomain_iff in Hd.
+    destruct Hd as [H1 [[H2|[H2 _]] H3]]; [|discriminate]. split; [exact H1|]. split; [left; exact H2|exact H3]. }
+  destruct (C08_range_upstream c d d data L buflen hdr name n HR Hsd (serves_refl d) Hb)
+    as [_ [_ [_ [Hn _]]]].
+  split; [exact Hn|apply bh_space_ge, HdL].
+Qed.
+Print Assumptions C08_prefix.
+
+(* the server side, for a server domain sd that is d up to ASCII case or a wildcard "*.rest"
+   matching d after its first label: dns_decode of the client's datagram (EDNS0 on or off, any id
+   and type, whatever follows the datagram in the receive buffer) gives back the name, type and
+   id; query_datalen finds the part before the domain; unpack_data of that part after the header
+   yields exactly the first n payload bytes *)
+Theorem C08_server_extract : forall c d sd data L buflen hdr name n,
+  C08_range c d data L buflen hdr ->
+  check_topdomain sd true = true -> serves sd d ->
+  build_hostname c buflen data d L = Some (name, n) ->
+  let full := hdr ++ name in
+  let dl := (length full - length d)%nat in
+  (forall pktlen edns0 id ty residue, (512 <= pktlen)%nat -> id < 65536 -> ty < 65536 ->
+     exists dg, dns_encode_query pktlen edns0 id ty full = Some dg /\
+       dns_decode_query (dg ++ residue) (length dg) =
+       {| dq_rv := Z.of_nat (length full);
+          dq_q := Some {| q_name := full; q_type := ty; q_id := id |} |}) /\
+  query_datalen full sd = Some dl /\
+  unpack_data c buf64k (skipn (length hdr) (firstn dl full)) (dl - length hdr) = firstn n data.
+Proof.
+  intros c d sd data L buflen hdr name n HR Hsd Hserves Hb full dl.
+  destruct (C08_range_upstream c d sd data L buflen hdr name n HR Hsd Hserves Hb)
+    as [_ [_ [_ [_ [Hdns [Hq Hu]]]]]].
+  split; [exact Hdns|]. split; [exact Hq|exact Hu].
+Qed.
+Print Assumptions C08_server_extract.
+
+(* ---- the client's builders --------------------------------------------------------------- *)
+
+(* send_chunk (data fragments): all of the above with a 5-character header *)
+Theorem C08_send_chunk : forall c d sd L userid out_seq out_frag in_seq in_frag cmc data full n,
+  the_codec c -> check_topdomain d false = true -> (100 <= L <= 255)%nat -> (length d + 24 <= L)%nat ->
+  check_topdomain sd true = true -> serves sd d ->
+  bytes_ok data -> (1 <= length data)%nat -> (cmc < 36)%nat ->
+  send_chunk_name c userid out_seq out_frag in_seq in_frag cmc data d L = Some (full, n) ->
+  upstream_ok c 5 d sd data L full n.
+Proof.
+  intros c d sd L userid out_seq out_frag in_seq in_frag cmc data full n Hc Hd [_ HL] HdL Hsd Hs Hdata Hlen Hcmc H.
+  destruct (the_codec_ok c Hc) as [Hwf Hdf].
+  assert (Hne : data <> []) by (destruct data; [simpl in Hlen; lia|discriminate]).
+  exact (send_chunk_upstream_ok d sd L Hd HdL HL Hsd Hs c userid out_seq out_frag in_seq in_frag cmc data full n
+           Hwf Hdf Hdata Hne Hcmc H).
+Qed.
+Print Assumptions C08_send_chunk.
+
+(* send_fragsize_probe *)
+Theorem C08_probe : forall c d sd L userid fragsize rand_seed full n,
+  the_codec c -> check_topdomain d false = true -> (100 <= L <= 255)%nat -> (length d + 24 <= L)%nat ->
+  check_topdomain sd true = true -> serves sd d ->
+  probe_name c userid fragsize rand_seed d L = Some (full, n) ->
+  upstream_ok c 5 d sd (probe_data rand_seed) L full n.
+Proof.
+  intros c d sd L userid fragsize rand_seed full n Hc Hd [_ HL] HdL Hsd Hs H.
+  destruct (the_codec_ok c Hc) as [Hwf Hdf].
+  exact (probe_upstream_ok d sd L Hd HdL HL Hsd Hs c userid fragsize rand_seed full n Hwf Hdf H).
+Qed.
+Print Assumptions C08_probe.
+
+(* send_packet (one command character, Base32), any payload *)
+Theorem C08_packet : forall d sd L cmd data full n,
+  check_topdomain d false = true -> (100 <= L <= 255)%nat -> (length d + 24 <= L)%nat ->
+  check_topdomain sd true = true -> serves sd d ->
+  clean cmd -> bytes_ok data -> (1 <= length data)%nat ->
+  packet_name cmd data d L = Some (full, n) ->
+  upstream_ok b32 1 d sd data L full n /\ ((length data <= 10)%nat -> n = length data).
+Proof.
+  intros d sd L cmd data full n Hd [_ HL] HdL Hsd Hs Hc Hdata Hlen H.
+  assert (Hne : data <> []) by (destruct data; [simpl in Hlen; lia|discriminate]).
+  split.
+  - exact (packet_upstream_ok d sd L Hd HdL HL Hsd Hs cmd data full n Hc Hdata Hne H).
+  - intros H10. exact (packet_small_complete d L HdL HL cmd data full n Hne H10 H).
+Qed.
+Print Assumptions C08_packet.
+
+(* version ('v'), ping ('p') and set-fragment-size ('n') messages are carried whole; the
+   19-byte login message ('l') is carried as a non-empty prefix (whole when it fits) *)
+Theorem C08_version_ping_fragsize_login : forall d sd L,
+  check_topdomain d false = true -> (100 <= L <= 255)%nat -> (length d + 24 <= L)%nat ->
+  check_topdomain sd true = true -> serves sd d ->
+  (forall version rs full n, packet_name 118 (version_data version rs) d L = Some (full, n) ->
+     upstream_ok b32 1 d sd (version_data version rs) L full n /\ n = 6%nat) /\
+  (forall userid in_seq in_frag rs full n, userid < 256 ->
+     packet_name 112 (ping_data userid in_seq in_frag rs) d L = Some (full, n) ->
+     upstream_ok b32 1 d sd (ping_data userid in_seq in_frag rs) L full n /\ n = 4%nat) /\
+  (forall userid fragsize rs full n, userid < 256 ->
+     packet_name 110 (fragsize_data userid fragsize rs) d L = Some (full, n) ->
+     upstream_ok b32 1 d sd (fragsize_data userid fragsize rs) L full n /\ n = 5%nat) /\
+  (forall userid login rs full n, userid < 256 -> bytes_ok login ->
+     packet_name 108 (login_data userid login rs) d L = Some (full, n) ->
+     upstream_ok b32 1 d sd (login_data userid login rs) L full n /\ (1 <= n <= 19)%nat).
+Proof.
+  intros d sd L Hd HL HdL Hsd Hs.
+  assert (Hcl : forall x, (x = 118 \/ x = 112 \/ x = 110 \/ x = 108) -> clean x).
+  { intros x Hx. unfold clean, DOT. lia. }
+  split; [|split; [|split]].
+  - intros version rs full n H. destruct (version_data_ok version rs) as [B [_ Ln]].
+    destruct (C08_packet d sd L 118 _ full n Hd HL HdL Hsd Hs (Hcl 118 ltac:(lia)) B ltac:(rewrite Ln; lia) H) as [U C].
+    split; [exact U|]. rewrite <- Ln. apply C. lia.
+  - intros userid in_seq in_frag rs full n Hu H. destruct (ping_data_ok userid in_seq in_frag rs Hu) as [B [_ Ln]].
+    destruct (C08_packet d sd L 112 _ full n Hd HL HdL Hsd Hs (Hcl 112 ltac:(lia)) B ltac:(rewrite Ln; lia) H) as [U C].
+    split; [exact U|]. rewrite <- Ln. apply C. lia.
+  - intros userid fragsize rs full n Hu H. destruct (fragsize_data_ok userid fragsize rs Hu) as [B [_ Ln]].
+    destruct (C08_packet d sd L 110 _ full n Hd HL HdL Hsd Hs (Hcl 110 ltac:(lia)) B ltac:(rewrite Ln; lia) H) as [U C].
+    split; [exact U|]. rewrite <- Ln. apply C. lia.
+  - intros userid login rs full n Hu Hl H. destruct (login_data_ok userid login rs Hu Hl) as [B [_ Ln]].
+    destruct (C08_packet d sd L 108 _ full n Hd HL HdL Hsd Hs (Hcl 108 ltac:(lia)) B ltac:(rewrite Ln; lia) H) as [U _].
+    split; [exact U|]. destruct U as [_ [_ [_ [Hn _]]]]. lia.
+Qed.
+Print Assumptions C08_version_ping_fragsize_login.
+
+(* ---- non-vacuity -------------------------------------------------------------------------- *)
+
+Definition ex_d76 : list N := repeat 97 63 ++ [46] ++ repeat 98 10 ++ [46; 99].   (* 63 a's . 10 b's . c *)
+Definition ex_d3 : list N := [97; 46; 98].                                        (* "a.b" *)
+Definition ex_pay (n : nat) : list N := map (fun i => (N.of_nat i * 37 + 11) mod 256) (seq 0 n).
+
+Lemma ex_pay_ok n : bytes_ok (ex_pay n) /\ length (ex_pay n) = n.
+Proof.
+  split; [|unfold ex_pay; rewrite map_length, seq_length; reflexivity].
+  unfold ex_pay, bytes_ok. rewrite Forall_forall. intros x Hx. apply in_map_iff in Hx.
+  destruct Hx as [i [<- _]]. unfold byte_ok. lia.
+Qed.
+
+(* the tightest corner L = 100, |d| = 76 (capacity 16 characters) with Base128: the name has
+   exactly L - 2 = 98 characters and carries 14 of 40 bytes; the range predicate holds *)
+Example C08_example_L100_D76 :
+  length ex_d76 = 76%nat /\
+  C08_range b128 ex_d76 (ex_pay 40) 100 4091 (chunk_header 3 1 2 3 4 false 7) /\
+  exists full, send_chunk_name b128 3 1 2 3 4 7 (ex_pay 40) ex_d76 100 = Some (full, 14%nat) /\
+    length full = 98%nat /\ query_datalen full ex_d76 = Some 22%nat /\
+    unpack_data b128 buf64k (skipn 5 (firstn 22 full)) 17 = firstn 14 (ex_pay 40).
+Proof.
+  split; [reflexivity|]. split.
+  - split; [right; right; right; reflexivity|]. split; [vm_compute; reflexivity|].
+    split; [lia|]. split; [vm_compute; lia|]. split; [apply ex_pay_ok|].
+    split; [rewrite (proj2 (ex_pay_ok 40)); lia|]. split; [left; reflexivity|].
+    split; [vm_compute; reflexivity|left; reflexivity].
+  - eexists. split; [vm_compute; reflexivity|]. repeat split; vm_compute; reflexivity.
+Qed.
+
+(* the other corner L = 255, |d| = 3 (capacity 240 characters, four groups of 57 and one of 12)
+   with Base32: 253 = L - 2 characters, 150 of 300 bytes *)
+Example C08_example_L255_D3 :
+  C08_range b32 ex_d3 (ex_pay 300) 255 4091 (chunk_header 3 1 2 3 4 false 7) /\
+  exists full, send_chunk_name b32 3 1 2 3 4 7 (ex_pay 300) ex_d3 255 = Some (full, 150%nat) /\
+    length full = 253%nat /\ query_datalen full ex_d3 = Some 250%nat /\
+    unpack_data b32 buf64k (skipn 5 (firstn 250 full)) 245 = firstn 150 (ex_pay 300).
+Proof.
+  split.
+  - split; [left; reflexivity|]. split; [vm_compute; reflexivity|].
+    split; [lia|]. split; [vm_compute; lia|]. split; [apply ex_pay_ok|].
+    split; [rewrite (proj2 (ex_pay_ok 300)); lia|]. split; [left; reflexivity|].
+    split; [vm_compute; reflexivity|left; reflexivity].
+  - eexists. split; [vm_compute; reflexivity|]. repeat split; vm_compute; reflexivity.
+Qed.
+
+(* the trailing-dot case: 71 bytes give 114 = 2 * 57 Base32 characters; inline_dotify itself ends
+   the text with a dot and build_hostname adds none: 5 + 57 + 1 + 57 + 1 + 3 = 124 characters *)
+Example C08_example_trailing_dot :
+  length (fst (encode b32 240 (ex_pay 71))) = 114%nat /\
+  last (dotify_spec 114 57 (fst (encode b32 240 (ex_pay 71)))) 0 = DOT /\
+  exists full, send_chunk_name b32 15 7 15 7 15 35 (ex_pay 71) ex_d3 255 = Some (full, 71%nat) /\
+    length full = 124%nat /\ nth 62 full 0 = DOT /\ nth 120 full 0 = DOT /\ nth 121 full 0 = 97 /\
+    query_datalen full ex_d3 = Some 121%nat /\
+    unpack_data b32 buf64k (skipn 5 (firstn 121 full)) 116 = ex_pay 71.
+Proof.
+  split; [vm_compute; reflexivity|]. split; [vm_compute; reflexivity|].
+  eexists. split; [vm_compute; reflexivity|]. repeat split; vm_compute; reflexivity.
+Qed.
+
+(* a wildcard-served and a differently-cased server domain *)
+Example C08_example_serves :
+  serves [42; 46; 98] ex_d3 /\ check_topdomain [42; 46; 98] true = true /\
+  serves [65; 46; 66] ex_d3 /\ check_topdomain [65; 46; 66] true = true /\
+  query_datalen ([120; 121; 46] ++ ex_d3) [42; 46; 98] = Some 3%nat.
+Proof.
+  split.
+  - right. exists [97], [98], [98]. repeat split; try reflexivity.
+    + intros [H|[]]. discriminate H.
+    + apply ci_eql_refl.
+  - split; [vm_compute; reflexivity|]. split.
+    + left. constructor; [right; right; lia|]. constructor; [left; reflexivity|].
+      constructor; [right; right; lia|constructor].
+    + split; vm_compute; reflexivity.
+Qed.
+
+(* with the tightest limit the 19-byte login message does not fit: only 10 bytes are carried *)
+Example C08_example_login_truncated :
+  exists full, packet_name 108 (login_data 3 (ex_pay 16) 4660) ex_d76 100 = Some (full, 10%nat).
+Proof. eexists. vm_compute. reflexivity. Qed.
